@@ -155,6 +155,7 @@ const (
 	skRel
 	skWake
 	skRun
+	skTrig
 )
 
 type sim struct {
@@ -232,7 +233,7 @@ func ints(a []int) string {
 
 func (s *sim) nextSch() {
 	if len(s.wl) == 0 {
-		s.sk = skIdle
+		s.sk = skTrig // the recycle-trigger block of run() ends the iteration
 	} else {
 		s.sk = skWake
 	}
@@ -283,6 +284,8 @@ func (s *sim) enabled() []string {
 		if !s.cfg.noMacro {
 			en = append(en, "V")
 		}
+	case skTrig:
+		en = append(en, "t")
 	}
 	if s.recUsed < s.cfg.recMax {
 		for sl := 0; sl < s.lat.VNumSlots(); sl++ {
@@ -437,10 +440,14 @@ func (s *sim) apply(op string) (res string) {
 		s.ch = append([]int(nil), s.ch[1:]...)
 		if s.locks[i].VAcquired() == 0 {
 			s.pcs[i] = 'R'
+			s.sk = skTrig
 		} else {
 			s.sk, s.si, s.wl = skRel, i, nil
 		}
 		return strconv.Itoa(i)
+	case 't':
+		s.sk = skIdle
+		return "-"
 	case 'r':
 		i := s.si
 		s.logRelease(i, s.locks[i].VAcquired()-1)
@@ -534,7 +541,7 @@ func (s *sim) apply(op string) (res string) {
 				}
 			}
 		}
-		s.sk = skIdle
+		s.sk = skTrig
 		return strings.Join(rs, "")
 	case 'c':
 		p := strings.Split(arg, ":")
@@ -599,6 +606,8 @@ func (s *sim) dump() string {
 		fmt.Fprintf(&sb, " S wake:%s", ints(s.wl))
 	case skRun:
 		fmt.Fprintf(&sb, " S run:%d:%s", s.si, ints(s.wl))
+	case skTrig:
+		sb.WriteString(" S trig")
 	}
 	return sb.String()
 }
@@ -950,6 +959,16 @@ func main() {
 			path = strings.Fields(os.Args[3])
 		}
 		runWalk("replay", c, nil, path)
+		summary()
+		return
+	}
+	if len(os.Args) >= 2 && os.Args[1] == "sched" {
+		seed, _ := strconv.ParseInt(os.Getenv("VERIF_SEED"), 10, 64)
+		schedMain(seed, os.Getenv("VERIF_TIER") == "thorough")
+		return
+	}
+	if len(os.Args) >= 4 && os.Args[1] == "replay-sched" {
+		runScript("replay", parseSpec(os.Args[2]), strings.Fields(os.Args[3]))
 		summary()
 		return
 	}
